@@ -14,6 +14,12 @@ reused: ONE real TrainLoss / ValLoss object taken through two consecutive call s
   model predicts after the first sequence, driver op c19.reused).  oracle: the object's best_model
   at the end of the second sequence is one of the second sequence's models.  Plus real ml.train
   called twice with one condition object.
+non-finite losses: histories over {0,1,2,3,nan,inf} with at least one NaN / +inf entry, driven call by
+  call through the real classes in all four scalar representations.  correspondence: the Lean
+  FLOAT-SHAPED machine (`pStepF` over `FV Rat`, best initialised to inf; driver op c19.run_f).
+  oracle: the property's sentence with "a NaN or +inf loss never improves on anything" (Python
+  reference, cross-checked with the Lean spec `trailingF` / `argBestF`, op c19.spec_f).  Plus real
+  ml.train runs whose scripted losses become NaN: must stop and return the best finite-loss model.
 """
 from __future__ import annotations
 
@@ -29,12 +35,34 @@ ALPHABET = [Fraction(0), Fraction(1), Fraction(2), Fraction(3)]
 REPS = ["pyfloat", "npfloat32", "npfloat64", "jax"]
 # 3/2 exceeds the alphabet's smallest step, so some decreases do NOT count as improvements
 DELTAS = (Fraction(0), Fraction(1, 2), Fraction(3, 2))
+# family "non-finite losses": a diverged training reports NaN (or +inf) as its epoch loss
+NAN, INF = "nan", "inf"
+NF_ALPHABET = ALPHABET + [NAN, INF]
+NF_DELTAS = (Fraction(0), Fraction(1, 2))
+
+
+def is_finite(x):
+    return not isinstance(x, str)
+
+
+def jloss(x):
+    """loss for the driver: [num, den] or the strings "nan" / "inf" """
+    return x if isinstance(x, str) else jrat(x)
+
+
+def parse_loss(t):
+    return t if t in (NAN, INF) else Fraction(t)
+
+
+def decoy_of(x):
+    """value of the NON-monitored argument (must be ignored): finite, and tempting for a NaN / inf loss"""
+    return Fraction(100) - x if is_finite(x) else Fraction(0)
 
 
 def conv(rep, x):
     import jax.numpy as jnp
 
-    v = float(x)
+    v = float(x)  # Fraction, or the strings "nan" / "inf"
     if rep == "pyfloat":
         return v
     if rep == "npfloat32":
@@ -59,6 +87,22 @@ def oracle(hist, patience, delta):
     return out
 
 
+def oracle_nf(hist, patience, delta):
+    """the property's sentence on a history with NaN / +inf entries: a NaN or +inf loss never
+    improves on anything (it is a non-improving epoch); the best is the best finite loss"""
+    best = None
+    since = 0
+    arg = 0
+    out = []
+    for i, x in enumerate(hist):
+        if is_finite(x) and (best is None or x < best - delta):
+            best, since, arg = x, 0, i + 1
+        else:
+            since += 1
+        out.append((since > patience, arg))
+    return out
+
+
 def run_impl(ml, cls_name, patience, delta, rep, hist):
     """returns list of (verdict, best_model) for: one loss-less call, then one call per loss"""
     cond = getattr(ml, cls_name)(patience=patience, min_delta=float(delta))
@@ -66,7 +110,7 @@ def run_impl(ml, cls_name, patience, delta, rep, hist):
     v = cond.stop(0, 0, None, None, 0.0)
     out.append((bool(v), cond.best_model))
     for i, x in enumerate(hist):
-        decoy = conv(rep, Fraction(100) - x)  # the non-monitored argument must be ignored
+        decoy = conv(rep, decoy_of(x))  # the non-monitored argument must be ignored
         mine = conv(rep, x)
         if cls_name == "TrainLoss":
             v = cond.stop(i + 1, i + 1, mine, decoy, 0.0)
@@ -76,9 +120,9 @@ def run_impl(ml, cls_name, patience, delta, rep, hist):
     return out
 
 
-def check_history(ctx: Ctx, ml, cls_name, patience, delta, rep, hist, model_out):
+def check_history(ctx: Ctx, ml, cls_name, patience, delta, rep, hist, model_out, family=None):
     impl = run_impl(ml, cls_name, patience, delta, rep, hist)
-    orc = oracle(hist, patience, delta)
+    orc = (oracle_nf if family == "nonfinite" else oracle)(hist, patience, delta)
     want = [(False, None)] + [(v, (a if a > 0 else None)) for v, a in orc]
     case = {
         "class": cls_name,
@@ -93,16 +137,31 @@ def check_history(ctx: Ctx, ml, cls_name, patience, delta, rep, hist, model_out)
     nontriv = len(hist) >= 2 and imps >= 1 and any(
         orc[i][1] == orc[i - 1][1] for i in range(1, len(orc))
     )
+    what = "verdicts/best_model differ from the specification"
+    lean = "pStep"
+    if family == "nonfinite":
+        case["family"] = family
+        # both branches of the test are taken: a finite loss is tracked and a NaN / +inf loss is refused
+        nontriv = len(hist) >= 2 and any(is_finite(x) for x in hist)
+        what = ("verdicts/best_model differ from the specification on a history with NaN / +inf losses "
+                "(a NaN or +inf loss is a non-improving epoch)")
+        lean = "pStepF (float-shaped machine)"
+        kinds = ctx.notes.setdefault("nonfinite_samples", {})
+        kind = ("NaN" if NAN in hist else "") + ("+inf" if INF in hist else "") + \
+            ("; before any finite loss" if not is_finite(hist[0]) else "; after a finite best")
+        if kind not in kinds and len(hist) >= 3 and patience == 1:
+            kinds[kind] = {k: case[k] for k in ("class", "patience", "min_delta", "rep", "losses", "impl")}
     ctx.case((cls_name, patience, str(delta), rep, case["losses"]), nontriv,
-             sample={k: case[k] for k in ("class", "patience", "min_delta", "rep", "losses", "impl")})
+             sample=None if family else
+             {k: case[k] for k in ("class", "patience", "min_delta", "rep", "losses", "impl")})
     if impl != want:
-        ctx.violation("oracle", f"{cls_name} verdicts/best_model differ from the specification", case)
+        ctx.violation("oracle", f"{cls_name} {what}", case)
     mod = list(zip(model_out["verdicts"], model_out["best_models"]))
     if [(v, m) for v, m in impl] != [(v, m) for v, m in mod]:
         case2 = dict(case)
         case2["model"] = [[v, m] for v, m in mod]
         if impl == want:
-            ctx.violation("correspondence", f"{cls_name} differs from Lean model pStep", case2)
+            ctx.violation("correspondence", f"{cls_name} differs from Lean model {lean}", case2)
 
 
 def enumerate_histories(ctx: Ctx, ml, max_len):
@@ -136,6 +195,94 @@ def enumerate_histories(ctx: Ctx, ml, max_len):
                             ctx.hist("len", n)
                             ctx.hist("class", cls_name)
                             check_history(ctx, ml, cls_name, patience, delta, rep, hist, mo)
+
+
+def nf_calls(mon, hist):
+    calls = [{"train": None, "val": None}]
+    for x in hist:
+        mine, decoy = jloss(x), jrat(decoy_of(x))
+        calls.append({"train": mine, "val": decoy} if mon == "train" else {"train": decoy, "val": mine})
+    return calls
+
+
+def nonfinite_histories(ctx: Ctx, ml, max_len):
+    """family 'non-finite losses': every history over {0,1,2,3,nan,inf} up to max_len with at least
+    one NaN / +inf entry"""
+    drv = ctx.driver
+    for n in range(1, max_len + 1):
+        for hist in itertools.product(NF_ALPHABET, repeat=n):
+            if all(is_finite(x) for x in hist):
+                continue
+            hist = list(hist)
+            for patience in range(4):
+                for delta in NF_DELTAS:
+                    # the Lean spec (proved equal to the float-shaped machine: pRunF_spec_nan) against the
+                    # Python reference of the property's sentence
+                    sp = drv.call("c19.spec_f", patience=patience, delta=jrat(delta),
+                                  losses=[jloss(x) for x in hist])
+                    orc = oracle_nf(hist, patience, delta)
+                    if sp["verdicts"] != [v for v, _ in orc] or sp["argbest"] != [a for _, a in orc]:
+                        ctx.violation("correspondence", "python oracle differs from Lean spec (trailingF/argBestF)",
+                                      {"family": "nonfinite-spec", "losses": [str(x) for x in hist],
+                                       "patience": patience, "min_delta": str(delta), "lean": sp, "oracle": orc})
+                    for cls_name, mon in (("TrainLoss", "train"), ("ValLoss", "val")):
+                        mo = drv.call("c19.run_f", patience=patience, delta=jrat(delta), monitor=mon,
+                                      m0=None, start=0, calls=nf_calls(mon, hist))
+                        # all four representations; on the longest thorough histories a rotating one + jax
+                        reps = REPS if (ctx.tier == "quick" or n < max_len) else \
+                            [REPS[(n + patience + len([x for x in hist if is_finite(x)])) % 4], "jax"]
+                        for rep in dict.fromkeys(reps):
+                            ctx.hist("nonfinite_rep", rep)
+                            ctx.hist("nonfinite_len", n)
+                            ctx.hist("nonfinite_kind", "+".join(k for k in (NAN, INF) if k in hist))
+                            check_history(ctx, ml, cls_name, patience, delta, rep, hist, mo, family="nonfinite")
+
+
+def nonfinite_train_configs():
+    """(condition, patience, min_delta, parameter script, with validation).  The parameter (and with
+    it every later loss) becomes NaN and stays NaN: training has diverged.  TrainLoss sees the loss of
+    the parameter BEFORE the epoch's update, so the last finite train loss belongs to an epoch whose
+    model is already NaN: the scripts make that epoch a non-improving one."""
+    return [
+        ("TrainLoss", 2, Fraction(0), [5, 3, 4, NAN, NAN, NAN, NAN, NAN, NAN], False),
+        ("ValLoss", 1, Fraction(0), [9, 5, 4, 6, NAN, NAN, NAN, NAN], True),
+        ("ValLoss", 0, Fraction(1, 2), [7, 6, NAN, NAN, NAN, NAN], True),
+        ("TrainLoss", 1, Fraction(1, 2), [8, 6, 7, 7, NAN, NAN, NAN, NAN], True),
+    ]
+
+
+def nonfinite_training_runs(ctx: Ctx, configs):
+    """real ml.train, scripted parameter that turns NaN, under the runaway guard: must terminate and
+    return the best finite-loss model"""
+    for cond_name, patience, delta, sc, with_val in configs:
+        losses = sc[1:] if cond_name == "ValLoss" else sc[:-1]
+        mo = ctx.driver.call("c19.loop_f", patience=patience, delta=jrat(delta),
+                             losses=[jloss(x) for x in losses], fuel=len(losses) + 2)
+        orc = oracle_nf(losses, patience, delta)
+        stop_at = next((i + 1 for i, (v, _) in enumerate(orc) if v), None)
+        stopped, epoch, got_w = train_run(ctx, cond_name, patience, delta, sc, with_val)
+        case = {"family": "nonfinite-train", "condition": cond_name, "patience": patience, "min_delta": str(delta),
+                "parameter_script": [str(x) for x in sc], "monitored_losses": [str(x) for x in losses],
+                "validation": with_val,
+                "impl": {"stopped": stopped, "stop_epoch": epoch, "returned_w": None if got_w is None else str(got_w)},
+                "model": mo}
+        ctx.case(("nonfinite-train", cond_name, patience, str(delta), case["parameter_script"], with_val), True)
+        ctx.notes.setdefault("nonfinite_train_runs", []).append(case)
+        ctx.hist("train_run", "nonfinite " + cond_name)
+        if stop_at is None:
+            continue  # the script never triggers the condition: nothing pinned
+        want = sc[orc[stop_at - 1][1]]
+        case["expected"] = {"stop_epoch": stop_at, "returned_w": str(want)}
+        ok_model = mo["stopped"] and mo["epoch"] == stop_at and mo["best"] == orc[stop_at - 1][1]
+        if not stopped:
+            ctx.violation("oracle", "ml.train did not terminate although the loss is NaN from some epoch on "
+                          "(runaway guard hit)", case)
+        elif epoch != stop_at or not (is_finite(want) and got_w == float(want)):
+            ctx.violation("oracle", "ml.train on a loss history that turns NaN stopped at the wrong epoch or did "
+                          "not return the best finite-loss model", case)
+        elif not ok_model:
+            ctx.violation("correspondence", "Lean trainLoopF differs from ml.train / the Python reference on a "
+                          "history that turns NaN", case)
 
 
 def epoch_stop(ctx: Ctx, ml):
@@ -446,6 +593,16 @@ def replay(ctx: Ctx, rep: dict):
         reused_training_runs(ctx, [(case["condition"], case["patience"], Fraction(case["min_delta"]),
                                     [Fraction(x) for x in case["first_parameter_script"]],
                                     [Fraction(x) for x in case["second_parameter_script"]], case["validation"])])
+    elif case.get("family") == "nonfinite":
+        hist = [parse_loss(x) for x in case["losses"]]
+        delta = Fraction(case["min_delta"])
+        mon = "train" if case["class"] == "TrainLoss" else "val"
+        mo = ctx.driver.call("c19.run_f", patience=case["patience"], delta=jrat(delta), monitor=mon, m0=None,
+                             start=0, calls=nf_calls(mon, hist))
+        check_history(ctx, ml, case["class"], case["patience"], delta, case["rep"], hist, mo, family="nonfinite")
+    elif case.get("family") == "nonfinite-train":
+        nonfinite_training_runs(ctx, [(case["condition"], case["patience"], Fraction(case["min_delta"]),
+                                       [parse_loss(x) for x in case["parameter_script"]], case["validation"])])
     elif "losses" in case and "class" in case and case["class"] in ("TrainLoss", "ValLoss"):
         hist = [Fraction(x) for x in case["losses"]]
         delta = Fraction(case["min_delta"])
@@ -485,12 +642,21 @@ def run(ctx: Ctx):
         "them; stop epochs and best_model ids compared with Lean trainLoopReused from the predicted stale "
         "state, oracle = the final best_model is one of the second sequence's models; and real ml.train "
         "called twice with one condition object (quick 2, thorough 5 configurations). "
+        "Family 'non-finite losses': all histories over {0,1,2,3,nan,inf} up to length (quick 4, thorough 5) that "
+        "contain at least one NaN / +inf entry x patience 0..3 x min_delta {0,1/2} x both classes x the four scalar "
+        "representations (float('nan'), numpy.float32, numpy.float64, 0-d jax array; two of them on the longest "
+        "thorough histories), driven call by call through the real classes and compared with the Lean float-shaped "
+        "machine pStepF (best initialised to inf, IEEE-like comparison and subtraction) and with the property's "
+        "sentence read with 'a NaN or +inf loss never improves'; plus real ml.train runs (quick 2, thorough 4) "
+        "whose scripted parameter turns NaN, under the runaway guard. "
         "A case is non-trivial when its history has length >= 2 and contains both an improvement after "
         "the first loss and a non-improvement (family 'reused': first sequence non-empty, i.e. the object is "
-        "genuinely stale, and second sequence of length >= 2); distinct = distinct (class, patience, delta, rep, "
+        "genuinely stale, and second sequence of length >= 2; family 'non-finite losses': length >= 2 with at "
+        "least one finite loss next to the NaN / +inf entries); distinct = distinct (class, patience, delta, rep, "
         "history or pair of histories)."
     )
-    ctx.assumptions = ["NaN and infinite losses are excluded", "float(x) of the alphabet values is exact"]
+    ctx.assumptions = ["a loss of -inf is excluded (NaN and +inf losses are covered); min_delta is finite and >= 0",
+                       "float(x) of the alphabet values is exact (no rounding, no overflow to inf inside the arithmetic)"]
     ctx.trusted_extra = ["optax/equinox/jax pmap as used by ml.train (exercised, not modelled)"]
     max_len = 5 if ctx.tier == "quick" else 7
     enumerate_histories(ctx, ml, max_len)
@@ -498,5 +664,10 @@ def run(ctx: Ctx):
     training_runs(ctx, 3 if ctx.tier == "quick" else 10)
     reused_conditions(ctx, ml)
     reused_training_runs(ctx, reused_train_configs()[: 2 if ctx.tier == "quick" else 5])
+    nf_len = 4 if ctx.tier == "quick" else 5
+    nonfinite_histories(ctx, ml, nf_len)
+    nonfinite_training_runs(ctx, nonfinite_train_configs()[: 2 if ctx.tier == "quick" else 4])
+    ctx.notes["nonfinite_scope"] = (f"all histories up to length {nf_len} over {{0,1,2,3,nan,inf}} with at least one "
+                                    "non-finite entry")
     ctx.exhaustive = True
     ctx.notes["exhaustive_scope"] = f"histories up to length {max_len} over a 4-value alphabet"
